@@ -454,6 +454,11 @@ pub fn generate(seed: u64, g: &GenB) -> PlanB {
         lat_max_us: *r.pick(&[100u64, 2000, 20000]),
         lan4_alias: None,
     };
+    if r.chance(0.5) {
+        /* a second IPv4 address on the LAN interface: the reply must come from the
+         * address the query was sent to, not from the interface's first address */
+        p.lan4_alias = Some(Ipv4Addr::from(u32::from(lan4.0) + 1));
+    }
 
     let nq = match shape {
         "burst" => r.range(40, if g.thorough { 256 } else { 120 }),
@@ -487,7 +492,7 @@ pub fn generate(seed: u64, g: &GenB) -> PlanB {
                 IpAddr::V6("2001:db8:ffff::77".parse().unwrap())
             }
         } else if inside {
-            IpAddr::V4(Ipv4Addr::from(u32::from(lan4.0) + r.range(1, 200) as u32))
+            IpAddr::V4(Ipv4Addr::from(u32::from(lan4.0) + r.range(2, 200) as u32))
         } else {
             IpAddr::V4(Ipv4Addr::new(203, 0, 113, r.range(20, 200) as u8))
         };
@@ -496,10 +501,14 @@ pub fn generate(seed: u64, g: &GenB) -> PlanB {
                 .listeners
                 .iter()
                 .filter_map(|l| {
+                    let v4dst = match p.lan4_alias {
+                        Some(a) if r.chance(0.4) => a,
+                        _ => lan4.0,
+                    };
                     if l == "default" {
-                        Some(if use_v6 { std::net::SocketAddr::new(IpAddr::V6(lan6.0), 53) } else { std::net::SocketAddr::new(IpAddr::V4(lan4.0), 53) })
+                        Some(if use_v6 { std::net::SocketAddr::new(IpAddr::V6(lan6.0), 53) } else { std::net::SocketAddr::new(IpAddr::V4(v4dst), 53) })
                     } else if l == "0.0.0.0:53" {
-                        if use_v6 { None } else { Some(std::net::SocketAddr::new(IpAddr::V4(lan4.0), 53)) }
+                        if use_v6 { None } else { Some(std::net::SocketAddr::new(IpAddr::V4(v4dst), 53)) }
                     } else {
                         let sa: std::net::SocketAddr = l.parse().ok()?;
                         if sa.is_ipv6() == use_v6 && !sa.ip().is_loopback() { Some(sa) } else { None }
